@@ -721,7 +721,9 @@ func genEnumText(r *rng) string {
 	return t
 }
 
-var regexBodies = []string{`[a-z]{1,3}`, `\\d+`, `foo-\\d`, `(a|b)c`, `^x.y$`, `[A-Z][a-z]*`, `a{2,3}`, `\\w+@\\w+\\.com`, `[^0-9]`, `(?:ab)+`, `x?y*`, `\\/`, `.`, `\\x41`, `世界`}
+var regexBodies = []string{`[a-z]{1,3}`, `\\d+`, `foo-\\d`, `(a|b)c`, `^x.y$`, `[A-Z][a-z]*`, `a{2,3}`, `\\w+@\\w+\\.com`, `[^0-9]`, `(?:ab)+`, `x?y*`, `\\/`, `.`, `\\x41`, `世界`,
+	// patterns a string generator that knows nothing of anchors and word boundaries cannot satisfy (seeded change c09l)
+	`a\\bb`, `\\Bfoo\\b `, `x^y`, `a$b`}
 
 func genRegexText(r *rng) string {
 	t := "/" + r.pick(regexBodies) + r.pick([]string{"", "", r.pick(regexBodies)}) + "/"
